@@ -85,7 +85,7 @@ def run_custom_replay(prop, scratch, test_names):
         p = scratch.path(rp["file"])
         s = open(p).read()
         modname = "verif_replay_" + re.sub(r"\W", "_", os.path.basename(modfile).replace(".rs", ""))
-        if modname not in s:
+        if ("mod %s;" % modname) not in s:
             s += "\n#[cfg(test)]\n#[path = \"%s\"]\nmod %s;\n" % (os.path.join(VERIF, modfile), modname)
             open(p, "w").write(s)
         for t in tests:
